@@ -1263,4 +1263,143 @@ theorem orderOfBool_range (xs : List Bool) : orderOfBool xs = 1 ∨ orderOfBool 
 def boolIndexOrder (pages : List (Option (Bool × Bool))) : Nat :=
   boundaryOrderOf (orderOfBool (storedMins false pages)) (orderOfBool (storedMaxs false pages))
 
+/-! ### the remaining column orders -/
+
+/-- INT96 as its three little-endian 32-bit words `(i[0], i[1], i[2])` -/
+abbrev I96 := Nat × Nat × Nat
+
+/-- MIRROR deprecated/int96.go:35-62 `Int96.Negative` / `Int96.Less`: sign of the top word first, then the words
+    from the most significant one, unsigned -/
+def int96Less (a b : I96) : Bool :=
+  let negA := decide (a.2.2 ≥ 2 ^ 31)
+  let negB := decide (b.2.2 ≥ 2 ^ 31)
+  if negA && !negB then true
+  else if !negA && negB then false
+  else if a.2.2 < b.2.2 then true
+  else if a.2.2 > b.2.2 then false
+  else if a.2.1 < b.2.1 then true
+  else if a.2.1 > b.2.1 then false
+  else if a.1 < b.1 then true
+  else false
+
+/-- SPEC: the value of a 96-bit two's complement integer -/
+def int96Key (a : I96) : Int :=
+  ((a.1 + 2 ^ 32 * a.2.1 + 2 ^ 64 * a.2.2 : Nat) : Int) - (if a.2.2 ≥ 2 ^ 31 then 2 ^ 96 else 0)
+
+/-- INT96: signed 96-bit order -/
+def int96 : ColOrder I96 := ofKey int96Key (fun _ => false)
+theorem int96_lawful : Lawful int96 := ofKey_lawful _ _
+
+/-- the library's `Less` IS the signed 96-bit order (words are 32-bit) -/
+theorem int96Less_eq (a b : I96) (ha : a.1 < 2 ^ 32 ∧ a.2.1 < 2 ^ 32 ∧ a.2.2 < 2 ^ 32)
+    (hb : b.1 < 2 ^ 32 ∧ b.2.1 < 2 ^ 32 ∧ b.2.2 < 2 ^ 32) : int96Less a b = int96.lt a b := by
+  obtain ⟨a0, a1, a2⟩ := a
+  obtain ⟨b0, b1, b2⟩ := b
+  simp only at ha hb
+  simp only [int96Less, int96, ofKey, int96Key, Bool.not_false, Bool.true_and]
+  by_cases hna : a2 ≥ 2 ^ 31 <;> by_cases hnb : b2 ≥ 2 ^ 31 <;>
+    simp only [hna, hnb, decide_true, decide_false, Bool.and_true, Bool.and_false, Bool.not_true, Bool.not_false,
+      Bool.false_eq_true, if_true, if_false, Bool.true_and, Bool.false_and] <;>
+    (repeat' split) <;> simp only [decide_eq_true_eq, decide_eq_false_iff_not, Bool.true_eq, Bool.false_eq] <;> omega
+
+/-- SPEC: the value of a big-endian two's complement byte string of any length (DECIMAL on BYTE_ARRAY) -/
+def beUnsigned : List Nat → Nat
+  | [] => 0
+  | b :: rest => b * 256 ^ rest.length + beUnsigned rest
+
+def decimalValue : List Nat → Int
+  | [] => 0
+  | b :: rest => ((beUnsigned (b :: rest) : Nat) : Int) - (if b ≥ 128 then 256 ^ (rest.length + 1) else 0)
+
+/-- DECIMAL on BYTE_ARRAY / FIXED_LEN_BYTE_ARRAY: order of the represented integers (SPEC; the mirror
+    `cmpDecimal` is tied to it by `cmpDecimal_fixed` for equal widths and by L2 for mixed widths) -/
+def decimalBinary : ColOrder (List Nat) := ofKey decimalValue (fun _ => false)
+theorem decimalBinary_lawful : Lawful decimalBinary := ofKey_lawful _ _
+
+/-- for equal widths the mirror of `compareDecimalByteArrays` is the sign-flipped unsigned order -/
+theorem cmpDecimal_fixed : ∀ (a b : List Nat), a.length = b.length → (∀ x ∈ a, x ≤ 255) → (∀ x ∈ b, x ≤ 255) →
+    (decide (cmpDecimal a b < 0)) = decimalFixed.lt a b
+  | [], [], _, _, _ => by decide
+  | [], _ :: _, h, _, _ => by simp at h
+  | _ :: _, [], h, _, _ => by simp at h
+  | a0 :: as, b0 :: bs, hlen, ha, hb => by
+    have ha0 : a0 ≤ 255 := ha a0 (by simp)
+    have hb0 : b0 ≤ 255 := hb b0 (by simp)
+    have hl : as.length = bs.length := by simpa using hlen
+    simp only [cmpDecimal, decimalFixed, ColOrder.comap, Stats.bytes, flipSign, List.length_cons, hl,
+      Nat.lt_irrefl, if_false, Nat.sub_self, cmpPadded, lexLt, Trunc.lexLe]
+    by_cases hna : a0 ≥ 128 <;> by_cases hnb : b0 ≥ 128
+    · have e1 : ¬ a0 < 128 := by omega
+      have e2 : ¬ b0 < 128 := by omega
+      simp only [hna, hnb, decide_true, Bool.not_true, Bool.and_false, Bool.false_eq_true, if_false, e1, e2,
+        Bool.and_true, Bool.true_and]
+      by_cases h1 : b0 < a0
+      · have : b0 - 128 < a0 - 128 := by omega
+        simp [h1, this] <;> (split <;> omega)
+      · by_cases h2 : b0 = a0
+        · subst h2
+          simp only [Nat.lt_irrefl, if_false, if_true]
+          cases hle : Trunc.lexLe bs as <;> simp
+          · split <;> simp
+        · have h3 : a0 < b0 := by omega
+          have : ¬ b0 - 128 < a0 - 128 := by omega
+          have h4 : ¬ b0 - 128 = a0 - 128 := by omega
+          have h5 : a0 - 128 < b0 - 128 := by omega
+          simp [h1, h2, h3, this, h4, h5]
+    · have e1 : ¬ a0 < 128 := by omega
+      have e2 : b0 < 128 := by omega
+      have : a0 - 128 < b0 + 128 := by omega
+      have h2 : ¬ b0 + 128 < a0 - 128 := by omega
+      have h3 : ¬ b0 + 128 = a0 - 128 := by omega
+      simp [hna, hnb, e1, e2, h2, h3]
+    · have e1 : a0 < 128 := by omega
+      have e2 : ¬ b0 < 128 := by omega
+      have : b0 - 128 < a0 + 128 := by omega
+      simp [hna, hnb, e1, e2, this]
+    · have e1 : a0 < 128 := by omega
+      have e2 : b0 < 128 := by omega
+      simp only [hna, hnb, decide_false, Bool.not_false, Bool.and_true, Bool.false_and, Bool.and_false,
+        Bool.false_eq_true, if_false, e1, e2, if_true]
+      by_cases h1 : b0 < a0
+      · have : b0 + 128 < a0 + 128 := by omega
+        simp [h1, this] <;> (split <;> omega)
+      · by_cases h2 : b0 = a0
+        · subst h2
+          simp only [Nat.lt_irrefl, if_false, if_true]
+          cases hle : Trunc.lexLe bs as <;> simp
+          · split <;> simp
+        · have h3 : a0 < b0 := by omega
+          have : ¬ b0 + 128 < a0 + 128 := by omega
+          have h4 : ¬ b0 + 128 = a0 + 128 := by omega
+          simp [h1, h2, h3, this, h4]
+
+/-! ### statistics of a column chunk copied verbatim (`WriteRowGroup` from a file) -/
+
+/-- what the statistics of one column chunk say, next to the pages they describe -/
+structure ChunkRecord (α : Type) where
+  pages : List (List (Option α))        -- the values of each data page (`none` = null)
+  index : List (Option (α × α))         -- column index entries, `none` = null page
+  nullCounts : List Nat                 -- column index null_counts
+  chunk : Option (α × α)                -- chunk statistics min/max
+  chunkNulls : Nat
+  offsets : List Nat                    -- offset index: page offsets in the file
+
+/-- SPEC: the record is sound (this is C05 for one chunk) -/
+structure ChunkRecord.Sound {α} (o : ColOrder α) (c : ChunkRecord α) : Prop where
+  aligned : c.index.length = c.pages.length ∧ c.nullCounts.length = c.pages.length
+  nulls : ∀ (i : Nat) (vals : List (Option α)), c.pages[i]? = some vals → c.nullCounts[i]? = some (vals.countP (· = none))
+  nullPage : ∀ (i : Nat) (vals : List (Option α)), c.pages[i]? = some vals → (c.index[i]? = some none ↔ ∀ v ∈ vals, v = none)
+  bound : ∀ (i : Nat) vals mn mx, c.pages[i]? = some vals → c.index[i]? = some (some (mn, mx)) →
+    ∀ v, some v ∈ vals → o.ok v = true → o.lt v mn = false ∧ o.lt mx v = false
+  chunkBound : ∀ mn mx, c.chunk = some (mn, mx) → ∀ vals ∈ c.pages, ∀ v, some v ∈ vals → o.ok v = true →
+    o.lt v mn = false ∧ o.lt mx v = false
+  chunkNullsExact : c.chunkNulls = ((c.pages.map (fun vals => vals.countP (· = none))).sum)
+
+/-- MIRROR writer_copy.go `loadCopiedChunk` + writer.go `writeRowGroup` (copied column): the page bytes are
+    streamed unchanged, column index / statistics / size statistics are clones of the source's, and the page
+    locations are rebased from the source's data page offset to the destination's. -/
+def copyVerbatim {α} (c : ChunkRecord α) (srcDataOffset dstDataOffset : Nat) : ChunkRecord α :=
+  { pages := c.pages, index := c.index, nullCounts := c.nullCounts, chunk := c.chunk, chunkNulls := c.chunkNulls,
+    offsets := c.offsets.map (fun off => off - srcDataOffset + dstDataOffset) }
+
 end PqModel.Stats
